@@ -395,6 +395,7 @@ class ElfiModel(GraphicalModel):
 
         """
         kopy = super(ElfiModel, self).copy()
+        kopy.observed = self.observed.copy()
         kopy.name = "{}_copy_{}".format(self.name, random_name())
         return kopy
 
